@@ -1,6 +1,7 @@
 import SJ.Proofs.Pointer
 import SJ.Proofs.ValueIndex
 import SJ.Proofs.PartialEq
+import SJ.Proofs.JsonMacro
 /-!
 # C18 — Value lookups follow RFC 6901 and agree with each other
 
@@ -305,5 +306,47 @@ example : eqPrim .f32 (.f32 0x3fc00000) (.num (.float 0x3ff8000000000000)) = tru
 example : eqStr [0x61] (.str [0x61]) = true := rfl
 
 end partialEq
+
+/-! ## `json!` -/
+
+section jsonMacro
+open SJ.Spec.JsonMacro SJ.Model.JsonMacro
+
+/-- **C18 (json!).** For every token tree that is a JSON-shaped literal — any nesting, elements and
+    members separated by commas with an optional trailing comma, keys that are string-valued
+    expression units (bare or parenthesised), values that are `null`/`true`/`false`, nested literals
+    or arbitrary interpolated expressions — applying the `json_internal!` rules in source order
+    succeeds and builds exactly the structurally evaluated value: arrays in order, an object holding
+    one entry per distinct key with the **last** duplicate's value, keys ascending (default) or in
+    first-occurrence order (`preserve_order`) — `Spec.Canon.objectOf`, i.e. what parsing the
+    equivalent JSON text yields by C02. Depends on the extracted insert statement being
+    `Map::insert` (`Gen.jsonInsertOverwrites`). -/
+theorem c18_json_macro (po : Bool) (t : TT) (l : Lit) (h : shape t = some l) :
+    jsonMacro po t = some (eval po l) :=
+  SJ.Proofs.JsonMacro.expand_shape po t l h
+
+/-- The tie to the source: the rule heads and right-hand sides of `json_internal!` regenerated from
+    `src/macros.rs` on this run are, in order, the ones `Model.JsonMacro` transcribes. -/
+theorem c18_json_rules_tied : RulesTied := ⟨rfl, rfl⟩
+
+/-- `{"a": 1, "b": [null, x,], "a": true,}` with `x` interpolated as `"s"`: last duplicate wins,
+    trailing commas are ignored -/
+def sample : TT :=
+  .obj [.lit (.str [0x61]), .colon, .lit (.num (.pos 1)), .comma,
+        .paren (.str [0x62]), .colon, .arr [.null, .comma, .expr (.str [0x73]), .comma], .comma,
+        .expr (.str [0x61]), .colon, .true_, .comma]
+example : shape sample = some (.obj [([0x61], .leaf (.num (.pos 1))), ([0x62], .arr [.null, .leaf (.str [0x73])]),
+    ([0x61], .bool true)]) := rfl
+example : jsonMacro false sample = some (.obj [([0x61], .bool true), ([0x62], .arr [.null, .str [0x73]])]) := rfl
+example : jsonMacro true (.obj [.lit (.str [0x62]), .colon, .null, .comma, .lit (.str [0x61]), .colon, .null, .comma,
+    .lit (.str [0x62]), .colon, .true_])
+    = some (.obj [([0x62], .bool true), ([0x61], .null)]) := rfl
+/-- outside the JSON shape the rules still speak: a leading comma in an array is accepted
+    (`json!([,1]) == [1]`, rule A10 on the empty accumulator), a doubled comma is not -/
+example : jsonMacro false (.arr [.comma, .lit (.num (.pos 1))]) = some (.arr [.num (.pos 1)]) := rfl
+example : jsonMacro false (.arr [.null, .comma, .comma, .lit (.num (.pos 1))]) = none := rfl
+example : jsonMacro false (.obj [.lit (.num (.pos 1)), .colon, .null]) = none := rfl   -- a number is no key
+
+end jsonMacro
 
 end SJ.Props.C18
